@@ -524,7 +524,7 @@ def _discharge_par(E, obs, tier, jobs, log, inproc_ms, timeout, solvers, refine)
 def _discharge(E, obs, tier, jobs, log, inproc_ms, timeout, solvers, refine):
     """decide every obligation.  Stage 1: in-process z3 with a short timeout.
     Stage 2: 4-way portfolio on SMT-LIB2 files."""
-    timeout = timeout or (90 if tier == "quick" else 600)
+    timeout = int(os.environ.get("VERIF_TIMEOUT") or 0) or timeout or (90 if tier == "quick" else 600)
     inproc_ms = inproc_ms if inproc_ms is not None else (4000 if tier == "quick" else 5000)
     jobs = jobs or 5
     str_ax = E.str_axioms()
